@@ -69,6 +69,26 @@ def size2(leaves, inner_leaves, funcs=True):
     return out
 
 
+def sign_space():
+    """MIN/MAX/ABS-free sign-sensitive forms: operands that are zero, negative
+    constants, negated variables or sums, so that a comparison that is only
+    valid for positive (or non-zero) variables gives a wrong claim."""
+    args = ["0", "-1", "-j", "i + j", "2 * i", "j", "i - 1"]
+    left = []
+    for func in ("min", "max"):
+        for arg in args:
+            left.append(f"{func}(i, {arg})")
+            left.append(f"{func}({arg}, i)")
+            left.append(f"a({func}(i, {arg}))")
+            left.append(f"(i + 1) * {func}(j, {arg if arg != 'j' else '0'})")
+    left += ["mod(i, 2)", "mod(-i, 2)", "mod(i, -2)", "i * j / j", "i ** 2 / i",
+             "(i * i) / i", "0 * i", "i - i", "i / i"]
+    left = list(dict.fromkeys(left))
+    right = ["i", "j", "0", "-1", "1", "-j", "i + j", "2 * i", "i + 1", "i - 1",
+             "a(i)", "-i", "i * j + j", "mod(i, 2)", "-mod(i, 2)"]
+    return left, right
+
+
 def spaces(tier):
     """list of (tag, left expressions, right expressions, solve?)"""
     full1 = LEAVES + size1(LEAVES)
@@ -81,13 +101,15 @@ def spaces(tier):
         probe = LEAVES + [e for e in size1(["i", "2"]) if "(" not in e and "**" not in e][:10]
         return [("s1xs1", five1, five1, False),
                 ("solve", red1 + ["j", "i + j", "i - j", "j - i", "2 * j"], red1, True),
+                ("sign",) + sign_space() + (True,),
                 ("s2xs1", size2(["i", "2", "3"], red, funcs=False), probe, False)]
     mid = ["i", "j", "n", "2"]
     mid1 = mid + size1(mid)
     return [("s1xs1", full1, full1, True),
             ("s2xs1", size2(mid + ["3"], mid, funcs=True),
              sorted(set(mid1 + probe + ["-3", "-i", "-2"])), False),
-            ("s2solve", size2(red + ["3"], red, funcs=False), red1, True)]
+            ("s2solve", size2(red + ["3"], red, funcs=False), red1, True),
+            ("sign",) + sign_space() + (True,)]
 
 
 def bounds(tier):
@@ -101,7 +123,11 @@ BLOCK = 4
 
 
 def cases(tier):
+    import os
+    only = os.environ.get("C17_ONLY")      # development aid: space tag filter
     for tag, left, _right, _solve in spaces(tier):
+        if only and tag not in only.split(","):
+            continue
         for start in range(0, len(left), BLOCK):
             yield {"key": f"{tag}:{start:05d}", "tag": tag, "start": start,
                    "stop": min(len(left), start + BLOCK)}
@@ -447,7 +473,7 @@ def run_case(case):
             num, bad = check_pair(tag, lidx, ridx, spc["solve"])
             claims += num
             viol += bad
-        if tag == "s1xs1" or (_W["tier"] == "thorough" and tag == "s2xs1"):
+        if tag in ("s1xs1", "sign") or (_W["tier"] == "thorough" and tag == "s2xs1"):
             num, bad = check_expand(tag, lidx)
             classes["expand"] += 1
             viol += bad
